@@ -1,6 +1,6 @@
 (* Executable entry point of C06 (and of the raw-JSON / generic framers for C01, C02, C07).
    input  = L [A kind; cfg; tabs; L chunks; ...]
-     kind 0..3   see Run/Stream.v (delegated unchanged)
+     kind 0..3   see Run/Stream.v (same dispatch)
      kind 4  copying  raw JSON        cfg = L [A limit]                       tabs = dec (as in Run/Stream.v)
      kind 5  copying  file based      cfg = L [A limit; L expected]           tabs = loader table
      kind 6  buffered file based      cfg = L [A limit; L expected; A hint]   tabs = loader table
@@ -268,10 +268,23 @@ Definition run (i : sx) : sx :=
       do m <- family fam cfg tabs;
       run_all_modes m data chunks (Z.to_nat hint)
   | L (A kind :: cfg :: tabs :: chs :: _) =>
-      if Z.leb kind 3 then EN.Run.Stream.run i else
       do chunks <- as_list_of as_bytes chs;
       let fuel := S (S (total_len chunks)) in
       match kind, cfg with
+      (* kinds 0..3: the same dispatch as Run/Stream.v's run (not referenced by name: the extracted program must
+         contain a single function called run) *)
+      | 0%Z, L [B sep; A limit; A ke] =>
+          do dec <- mk_dec tabs;
+          L (rc_all (ru_framer sep (Z.to_nat limit) (Z.eqb ke 1) dec) fuel (cinit _) chunks)
+      | 1%Z, L [B sep; A limit; A ke; A hint] =>
+          do dec <- mk_dec tabs;
+          L (rb_all (bru_framer sep (Z.to_nat limit) (Z.eqb ke 1) dec) (Z.to_nat hint) fuel (bcinit _) chunks)
+      | 2%Z, L [A size] =>
+          do dec <- mk_dec tabs;
+          L (rc_all (rx_framer (Z.to_nat size) dec) fuel (cinit _) chunks)
+      | 3%Z, L [A size; A hint] =>
+          do dec <- mk_dec tabs;
+          L (rb_all (bfx_framer (Z.to_nat size) dec) (Z.to_nat hint) fuel (bcinit _) chunks)
       | 4%Z, L [A limit] =>
           do dec <- mk_dec tabs;
           let F := json_framer (Z.to_nat limit) dec in
